@@ -498,6 +498,8 @@ Fixpoint rec_element_of (sp : space) (names : out) {struct names} : result elt :
   | OSeq k l =>
       match sp with
       | SProduct spaces =>
+          (* if len(names) != len(spaces): raise ValueError   (repair f3da127) *)
+          if negb (length l =? length spaces) then Err ValueErr else
           (* [_recursive_element_of(s, n) for s, n in zip(spaces, names)] *)
           match (fix go (ss : list space) (l : list out) {struct l} : result (list elt) :=
                    match ss, l with
@@ -521,6 +523,7 @@ Fixpoint rec_elements_of (sp : space) (names : out) {struct names} : result elt 
   | OSeq k l =>
       match sp with
       | SProduct spaces =>
+          if negb (length l =? length spaces) then Err ValueErr else
           match (fix go (ss : list space) (l : list out) {struct l} : result (list elt) :=
                    match ss, l with
                    | s :: ss', n :: l' =>
@@ -676,3 +679,34 @@ Definition r_colon := RChar is_colon.
 Definition range_re : re :=
   RAlt (RCat (RStar r_digit) (RCat r_colon (RCat r_digit (RStar r_digit))))
        (RCat (RAlt r_letter REps) (RCat r_colon r_letter)).
+
+(* ------------------------------------------------------------------------- *)
+(*  Part 9.  For the record: _recursive_element_of before the repair f3da127   *)
+(*           (no length check: zip() stops at the shorter argument)            *)
+(* ------------------------------------------------------------------------- *)
+Fixpoint rec_element_of_before_fix (sp : space) (names : out) {struct names} : result elt :=
+  match names with
+  | OName n => element sp n
+  | OSeq k l =>
+      match sp with
+      | SProduct spaces =>
+          match (fix go (ss : list space) (l : list out) {struct l} : result (list elt) :=
+                   match ss, l with
+                   | s :: ss', n :: l' =>
+                       match rec_element_of_before_fix s n with
+                       | Err e => Err e
+                       | Ok x => match go ss' l' with Err e => Err e | Ok xs => Ok (x :: xs) end
+                       end
+                   | _, _ => Ok []
+                   end) spaces l with
+          | Err e => Err e
+          | Ok xs => Ok (ESeq k xs)
+          end
+      | SBasic _ _ => Err ValueErr
+      end
+  end.
+Definition element_of_before_fix (sp : space) (name : pat) : result elt :=
+  match expand_A name SeqAbsent with
+  | Err e => Err e
+  | Ok names => rec_element_of_before_fix sp names
+  end.
